@@ -9,13 +9,15 @@ import FluteModel.Lemmas.RecvFdtObj
 namespace Flute.Recv.Whole
 open Flute Flute.Recv Flute.Recv.AllObj Flute.Props.C04
 
+variable {P : ObjRecv.Params}
+
 /-! ### the interface functions preserve `ObjOK` -/
 
-theorem new_ok (X : Interfaces) (toi m : Nat) (hm : m < 2 ^ 63) : ObjOK X (Full.iface.new toi m) := by
+theorem new_ok (X : Interfaces P) (toi m : Nat) (hm : m < 2 ^ 63) : ObjOK X ((Full.iface P).new toi m) := by
   exact ⟨rfl, X.inv_new toi m hm⟩
 
-theorem push_ok (X : Interfaces) (p : Pkt) (hp : X.PktOK (Full.toPkt p)) (o : Full.Any) (ho : ObjOK X o) :
-    ObjOK X (Full.iface.push o p).1 := by
+theorem push_ok (X : Interfaces P) (p : Pkt) (hp : X.PktOK (Full.toPkt p)) (o : (Full.Any P)) (ho : ObjOK X o) :
+    ObjOK X ((Full.iface P).push o p).1 := by
   cases o with
   | inl m => trivial
   | inr f =>
@@ -49,8 +51,8 @@ theorem push_ok (X : Interfaces) (p : Pkt) (hp : X.PktOK (Full.toPkt p)) (o : Fu
         subst hst2
         exact ⟨hf, hinv'⟩
 
-theorem attach_ok (X : Interfaces) (o : Full.Any) (id : Nat) (fdt : FdtAbs) (hq : FdtQ X fdt) (ho : ObjOK X o) :
-    ObjOK X (Full.iface.attachFdt o id fdt).1 := by
+theorem attach_ok (X : Interfaces P) (o : (Full.Any P)) (id : Nat) (fdt : FdtAbs) (hq : FdtQ X fdt) (ho : ObjOK X o) :
+    ObjOK X ((Full.iface P).attachFdt o id fdt).1 := by
   cases o with
   | inl m => trivial
   | inr f =>
@@ -77,7 +79,7 @@ theorem attach_ok (X : Interfaces) (o : Full.Any) (id : Nat) (fdt : FdtAbs) (hq 
       exact ⟨hf, hinv'⟩
 
 /-- a datagram the parser accepted yields, at the object level, a packet meeting `PktOK` -/
-theorem abs_pkt_ok (X : Interfaces) (tsi : Nat) (d : List UInt8) (now : Int) (ans : FdtAns) (p : Pkt) (now' : Int)
+theorem abs_pkt_ok (X : Interfaces P) (tsi : Nat) (d : List UInt8) (now : Int) (ans : FdtAns) (p : Pkt) (now' : Int)
     (ans' : FdtAns) (h : (BOp.data d now ans).abs tsi = .data (.pkt p) now' ans') : X.PktOK (Full.toPkt p) := by
   simp only [BOp.abs, Op.data.injEq] at h
   obtain ⟨h1, _, _⟩ := h
@@ -95,7 +97,7 @@ theorem abs_pkt_ok (X : Interfaces) (tsi : Nat) (d : List UInt8) (now : Int) (an
       exact X.parsed_pkt_ok d q hp
 
 /-- the invariant of the whole-call theorem -/
-structure WInv (X : Interfaces) (cfg : Config) (s : State Full.Any) : Prop where
+structure WInv (X : Interfaces P) (cfg : Config) (s : State (Full.Any P)) : Prop where
   good : AllFdt Good s
   objs : ObjsAll (ObjOK X) s
   inst : AllFdt (InstQ (FdtQ X)) s
@@ -103,9 +105,9 @@ structure WInv (X : Interfaces) (cfg : Config) (s : State Full.Any) : Prop where
   fobjs : AllFdt (FObj (ObjOK X)) s
   cfg : s.cfg = cfg
 
-theorem winv_step (X : Interfaces) (cfg : Config) (hc : cfg.maxCache < 2 ^ 63) (tsi : Nat) (s s' : State Full.Any)
+theorem winv_step (X : Interfaces P) (cfg : Config) (hc : cfg.maxCache < 2 ^ 63) (tsi : Nat) (s s' : State (Full.Any P))
     (b : BOp) (r : Res) (evs : List Ev) (hn : TimeSane (b.abs tsi).now) (hb : BOpAns X b)
-    (h : step Full.iface s (b.abs tsi) = .ok (s', r, evs)) (hs : WInv X cfg s) : WInv X cfg s' := by
+    (h : step (Full.iface P) s (b.abs tsi) = .ok (s', r, evs)) (hs : WInv X cfg s) : WInv X cfg s' := by
   have hansq : ∀ d now ans, b.abs tsi = .data d now ans → ∀ fdt u, ans = .ok fdt u → FdtQ X fdt := by
     intro d now ans hop
     cases b with
@@ -113,16 +115,16 @@ theorem winv_step (X : Interfaces) (cfg : Config) (hc : cfg.maxCache < 2 ^ 63) (
     | data d' now' ans' =>
       simp only [BOp.abs, Op.data.injEq] at hop
       rw [← hop.2.2]; exact hb
-  refine ⟨step_good Full.iface Full.completeSound s s' _ r evs (bop_abs_ok tsi b hn) h hs.good, ?_, ?_, ?_,
-    by rw [step_cfg Full.iface s s' _ r evs h]; exact hs.cfg⟩
-  · refine step_objsAll Full.iface (ObjOK X) (FdtQ X) (fun o id f hq ho => attach_ok X o id f hq ho) s s' _ r evs
+  refine ⟨step_good (Full.iface P) (Full.completeSound P) s s' _ r evs (bop_abs_ok tsi b hn) h hs.good, ?_, ?_, ?_,
+    by rw [step_cfg (Full.iface P) s s' _ r evs h]; exact hs.cfg⟩
+  · refine step_objsAll (Full.iface P) (ObjOK X) (FdtQ X) (fun o id f hq ho => attach_ok X o id f hq ho) s s' _ r evs
       (fun toi => new_ok X toi _ (by rw [hs.cfg]; exact hc)) ?_ hs.inst hansq h hs.objs
     intro p now ans hop o ho
     cases b with
     | cleanup now' stale => simp [BOp.abs] at hop
     | data d now' ans' => exact push_ok X p (abs_pkt_ok X tsi d now' ans' p now ans hop) o ho
   · -- the stored FDT instances: recv's generic `step_all`
-    refine (step_all Full.iface (InstQ (FdtQ X)) s s' _ r evs ?_ ?_ ?_ ?_ h hs.inst).1
+    refine (step_all (Full.iface P) (InstQ (FdtQ X)) s s' _ r evs ?_ ?_ ?_ ?_ h hs.inst).1
     · intro f v hf
       unfold FdtRecv.noteFti
       split
@@ -130,17 +132,17 @@ theorem winv_step (X : Interfaces) (cfg : Config) (hc : cfg.maxCache < 2 ^ 63) (
       · exact hf
     · intro p now ans id _ _ inst hi; simp [FdtRecv.new] at hi
     · intro p now ans hop _ id _ f hf
-      exact push_instQ Full.iface (FdtQ X) ans (hansq _ now ans hop) f p now hf
+      exact push_instQ (Full.iface P) (FdtQ X) ans (hansq _ now ans hop) f p now hf
     · intro f f' hf hu inst hi
       rw [updateExpired_inst f f' _ hu] at hi; exact hf inst hi
   · -- the FDT objects: recv's `step_fobj`
-    refine step_fobj Full.iface (ObjOK X) s s' _ r evs (new_ok X 0 _ (by decide)) ?_ h hs.fobjs
+    refine step_fobj (Full.iface P) (ObjOK X) s s' _ r evs (new_ok X 0 _ (by decide)) ?_ h hs.fobjs
     intro p now ans hop _ o ho
     cases b with
     | cleanup now' stale => simp [BOp.abs] at hop
     | data d now' ans' => exact push_ok X p (abs_pkt_ok X tsi d now' ans' p now ans hop) o ho
 
-theorem reachable_winv (X : Interfaces) (cfg : Config) (hc : cfg.maxCache < 2 ^ 63) (tsi : Nat) (s : State Full.Any)
+theorem reachable_winv (X : Interfaces P) (cfg : Config) (hc : cfg.maxCache < 2 ^ 63) (tsi : Nat) (s : State (Full.Any P))
     (h : Reachable X tsi cfg s) : WInv X cfg s := by
   induction h with
   | init =>
@@ -149,12 +151,12 @@ theorem reachable_winv (X : Interfaces) (cfg : Config) (hc : cfg.maxCache < 2 ^ 
       by constructor <;> (intro f hf; simp [State.init] at hf), rfl⟩
   | step s s' b r evs _ hn hb hstep ih => exact winv_step X cfg hc tsi s s' b r evs hn hb hstep ih
 
-theorem anyFault_false (X : Interfaces) (o : Full.Any) (h : ObjOK X o) : anyFault o = false := by
+theorem anyFault_false (X : Interfaces P) (o : (Full.Any P)) (h : ObjOK X o) : anyFault o = false := by
   cases o with
   | inl m => rfl
   | inr f => exact h.1
 
-theorem hasFault_false (X : Interfaces) (s : State Full.Any) (h : ObjsAll (ObjOK X) s)
+theorem hasFault_false (X : Interfaces P) (s : State (Full.Any P)) (h : ObjsAll (ObjOK X) s)
     (hf : AllFdt (FObj (ObjOK X)) s) : hasFault s = false := by
   unfold hasFault
   simp only [Bool.or_eq_false_iff, List.any_eq_false]
